@@ -324,8 +324,13 @@ def run(ck):
                   ['--medium=13,0.005,0,10', '--medium=5,0.001,-1,25', '--medium=80,4,-2', '--boundary=circular'],
                   ['--medium=13,0.005,0,12', '--medium=5,0.001,0', '--radial-count=8', '--radial-radius=0.001'],
                   ['--medium=13,0.005,0,10', '--medium=5,0.001,-1,25', '--medium=80,4,-2']]
-    for i in range(nfull):
+    # very large and very small structures (the same dipole in other units): coordinates and radii up to 1e12 and down to 1e-9
+    big_corpus = [['-f', '%.17g' % (7.0 / sc), '-w', '4,0,0,1,0,0,9,.12', '--excitation-pulse=2', '--geo-scale=%.17g' % sc,
+                   '--theta=10,35,2', '--phi=0,90,2'] for sc in (1e12, 1e10, 1e6, 1e-6, 1e-9, 0.7e12)]
+    for i in range(nfull + len(big_corpus)):
         argv, meta = cmdgen.gen_cmdline(rng)
+        if i >= nfull:
+            argv = list(big_corpus[i - nfull])
         if i < len(env_corpus):
             # every kind of environment block once: free space, perfect ground, one / two / three media, linear and
             # circular boundaries with and without a radial screen
